@@ -319,6 +319,22 @@ func scripted(c *kit.Ctx) []job {
 			add("nodepool-"+pf, 2, o, cleanup, start([]int{0, 1}, nrepl), env("launch", 1, 0), cleanup)
 		}
 	}
+	// ---- a second command that shares ONE candidate (first / middle / last of the waiting command) is rejected; controller
+	// passes; a third command on the shared candidate; then the first command's replacement initializes and it is
+	// reconciled through each of its candidates
+	for _, x := range []int{0, 1, 2} {
+		for _, second := range [][]int{{x}, {x, 3}} {
+			for _, nb := range []int{0, 1} {
+				for _, nc := range []int{0, 1} {
+					for _, via := range []int{0, 1, 2} {
+						add("overlapping-start", 4, start([]int{0, 1, 2}, 1), env("launch", 0, 0), start(second, nb), cleanup, deliver, cleanup,
+							start([]int{x}, nc), env("launch", 2, 0), cleanup, env("init", 0, 0), recon(via), recon(x), cleanup, deliver,
+							env("init", 2, 0), recon(x), recon(3), cleanup)
+					}
+				}
+			}
+		}
+	}
 	// ---- S5 a restart between any two steps of the protocol
 	base := []jOp{start([]int{0, 1}, 2), env("launch", 0, 0), env("launch", 0, 1), env("init", 0, 1), recon(0), env("init", 0, 0), recon(1), deliver, cleanup}
 	for pos := 0; pos <= len(base); pos++ {
